@@ -565,20 +565,20 @@ class DifferentialEvolutionHyperbandScheduler(SynchronousHyperbandCommon):
                     trial_decision = SchedulerDecision.PAUSE
                 else:
                     trial_decision = SchedulerDecision.STOP
-                prev_level = self.bracket_manager.level_to_prev_level(
-                    ext_slot.bracket_id, milestone
+            prev_level = self.bracket_manager.level_to_prev_level(
+                ext_slot.bracket_id, milestone
+            )
+            if resource > prev_level and self.searcher is not None:
+                config = self._hp_ranges.from_ndarray(
+                    self._trial_info[trial_id].encoded_config
                 )
-                if resource > prev_level and self.searcher is not None:
-                    config = self._hp_ranges.from_ndarray(
-                        self._trial_info[trial_id].encoded_config
-                    )
-                    update = self.searcher_data == "all" or resource == milestone
-                    self.searcher.on_trial_result(
-                        trial_id=str(trial_id),
-                        config=config,
-                        result=result,
-                        update=update,
-                    )
+                update = self.searcher_data == "all" or resource == milestone
+                self.searcher.on_trial_result(
+                    trial_id=str(trial_id),
+                    config=config,
+                    result=result,
+                    update=update,
+                )
         else:
             trial_decision = SchedulerDecision.STOP
             logger.warning(
